@@ -67,6 +67,8 @@ def gen_def(r, allow_kwonly=True, allow_kwargs=True, method=None, containers=Fal
         "name": "call_peril", "method": method, "params": params, "kwargs": kwargs, "doc": doc, "coverage": coverage,
         "style": style, "summary": "Summary of the thing.",
         "trailer": r.random() < 0.3, "brace_opts": r.random() < 0.2,
+        # numpydoc as people write it: `name : type`, but also `name: type` and `name :type`
+        "np_colon": " : " if r.random() < 0.7 else r.choice([": ", " :"]),
     }  # fmt: skip
 
 
@@ -87,7 +89,7 @@ def docstring(f, indent):
         if f["doc"]:
             lines += ["Parameters", "----------"]
             for e in f["doc"]:
-                lines.append("%s : %s" % (e["name"], e.get("typ", "object")))
+                lines.append("%s%s%s" % (e["name"], f.get("np_colon", " : "), e.get("typ", "object")))
                 lines.append("    " + _prose(e))
             lines.append("")
         if f.get("trailer"):
